@@ -194,6 +194,58 @@ def run(ctx):
                 ctx.bad(R_readd, "rebuild_with_files|re-add", "%s:%d" % (rw.file, lp["ln"]), "; ".join(probs[:3]), "an extracted file is left out of (or mis-named / mis-filled in) the rebuilt archive")
             else:
                 ctx.ok(R_readd, {"adds": len(adds), "loop_line": lp["ln"]})
+    # listfile strategy: generation may be turned off only on the evidence that a (listfile) is among the files re-added
+    R_lf = ctx.rule("C07.listfile-strategy-follows-readded-files", "ListfileOption::None is chosen only under a condition computed from the collection the re-add loop iterates (and naming \"(listfile)\")", floor=1)
+    if rw is not None and rw.hir:
+        from .c03 import make_inliner
+        body = rw.hir["body"]
+        inline = make_inliner(body)
+        iterated = set()
+        for lp in hirq.find(body, "for"):
+            if any(c.get("k") == "mcall" and re.match(r"add_file", c["m"]) for c in hirq.walk(lp["body"])):
+                iterated |= {x["res"]["local"] for x in hirq.walk(lp["iter"]) if x.get("k") == "path" and "local" in x["res"]}
+        for c in hirq.walk(body):
+            if c.get("k") == "mcall" and c["m"] == "listfile_option" and c.get("args"):
+                a = hirq.strip(c["args"][0])
+                none_conds = []
+                if a.get("k") == "if":
+                    th_none = any(x.get("k") == "path" and x["res"].get("def", "").endswith("ListfileOption::None") for x in hirq.walk(a["then"]))
+                    el_none = a.get("else") is not None and any(x.get("k") == "path" and x["res"].get("def", "").endswith("ListfileOption::None") for x in hirq.walk(a["else"]))
+                    if th_none or el_none:
+                        none_conds.append(a["c"])
+                elif any(x.get("k") == "path" and x["res"].get("def", "").endswith("ListfileOption::None") for x in hirq.walk(a)):
+                    none_conds.append(None)
+                if not none_conds:
+                    ctx.ok(R_lf, {"call_line": c["ln"], "never_disables_generation": True})
+                for nc in none_conds:
+                    if nc is None:
+                        ctx.bad(R_lf, "rebuild_with_files|listfile-none-unconditional", "%s:%d" % (rw.file, c["ln"]), "listfile generation is disabled unconditionally", "an archive whose (listfile) is not among the extracted files is rebuilt without any listing")
+                        continue
+                    ci = inline(nc)
+                    used = {x["res"]["local"] for x in hirq.walk(ci) if x.get("k") == "path" and "local" in x["res"]}
+                    names_lit = "(listfile)" in hirq.render(ci)
+                    if used & iterated and names_lit:
+                        ctx.ok(R_lf, {"call_line": c["ln"], "condition": hirq.render(ci)[:100], "collection": sorted(used & iterated)})
+                    else:
+                        ctx.bad(R_lf, "rebuild_with_files|listfile-none-evidence", "%s:%d" % (rw.file, c["ln"]), "generation is disabled under `%s`, which is not computed from the re-added collection %s" % (hirq.render(ci)[:80], sorted(iterated)),
+                                "when the source has a (listfile) that is not itself among the extracted files (it does not list itself, or was filtered), nothing adds one and nothing generates one: the rebuilt archive cannot be listed")
+
+    # the only success exit that bypasses the build phase is the list_only option
+    R_bypass = ctx.rule("C07.build-bypassed-only-by-list-only", "every `return Ok(..)` of rebuild_archive that precedes the rebuild_with_files call is guarded by exactly `options.list_only`", floor=1)
+    if ra is not None and ra.hir:
+        body = ra.hir["body"]
+        call_ln = min([c["ln"] for c in hirq.calls(body) if (c.get("fn") or "").endswith("rebuild::rebuild_with_files")] or [10 ** 9])
+        for r_ in hirq.find(body, "ret"):
+            if r_["ln"] >= call_ln or "Ok(" not in hirq.render(r_.get("e")) and "Ok" not in hirq.render(r_.get("e")):
+                continue
+            conds = enclosing_if_conditions(body, r_)
+            rend = [(w, hirq.render(hirq.strip(cd))) for w, cd in conds]
+            if len(rend) == 1 and rend[0][0] == "then" and re.fullmatch(r"\(?options\.list_only\)?", rend[0][1]):
+                ctx.ok(R_bypass, {"return_line": r_["ln"], "guard": rend[0][1]})
+            else:
+                ctx.bad(R_bypass, "rebuild_archive|early-ok", "%s:%d" % (ra.file, r_["ln"]), "success is returned before the build phase under %s" % (rend or "no condition"),
+                        "for inputs satisfying the extra condition no target archive is written (and none is verified) although the rebuild reports Ok")
+
     sig = mpq.fns.get(F + "is_signature_file")
     if sig is not None and sig.hir:
         lits = sorted({hirq.lit_str(x) or x["v"].get("str") for x in hirq.walk(sig.hir["body"]) if x.get("k") == "lit" and "str" in x["v"]})
